@@ -26,11 +26,11 @@ REQUIRED = {"C14": {"healthy-package": 200, "fault:duplicate": 30, "fault:defaul
                     "select:none": 30, "period-api": 200, "period-run": 60, "iteration-checked": 2000, "after-disable-silent": 100,
                     "other-modes-silent-checked": 200, "chooser-options-checked": 200, "disable-after-run-silent": 30, "disable-mid-run": 15, "reselected-between-periods": 50, "elapsed-time-checked": 500,
                     "mode-class-imported-from-library-module": 20, "run-period-of-1ms": 5,
-                    "fault-is-a-BaseException": 10, "missing-dotted-package": 3, "falsy-mode-object-chosen": 5}}
+                    "fault-is-a-BaseException": 10, "period-without-disable": 20, "missing-dotted-package": 3, "falsy-mode-object-chosen": 5}}
 ASSUMPTIONS = {"C14": ["a mode class re-exported by a second module is not generated (the statement does not say whether it is found twice)",
                        "a mode class that exactly one package module imports from a module outside the package counts as 'found in the modules of the package'",
                        "with several DEFAULT modes and the FMS attached the preselected mode may be any of them",
-                       "periodic() before the first start() and start() twice without disable() are not generated (unspecified)"]}
+                       "periodic() before the first start() is not generated (unspecified); a period that never gets disable() ends at the next start() (documented as allowed) - whether that start() delivers on_disable to the old mode is not specified and either is accepted"]}
 
 
 def shards(pid, tier, seed):
@@ -112,12 +112,16 @@ def gen_case(rng, uid):
     for _ in range(rng.choice([1, 2, 3])):
         if style == "api":
             ops = []
-            if rng.random() < 0.15:
+            if rng.random() < 0.15 and not (periods and not any(o_[0] == "disable" for o_ in periods[-1][1:])):
                 ops.append(["disable"])
             ops.append(["start"])
             for _ in range(rng.choice([0, 1, 5, 20])):
                 ops.append(["adv", rng.choice([0, 20000, 20000, 5000, rng.randrange(0, 100000)])])
                 ops.append(["periodic"])
+            if rng.random() < 0.15:
+                # "It is okay to not call disable() if you do not need on_disable": the next start() begins a new period
+                periods.append(ops)
+                continue
             ops.append(["disable"])
             if rng.random() < 0.3:
                 ops.append(["disable"])
@@ -249,6 +253,7 @@ def run_case(acc, case):
     from . import simenv
     e = simenv.env()
     acc.evaluations += 1
+    case.pop("_undisabled", None)
     root = tempfile.mkdtemp(prefix="vf-sel-")
     sys.path.insert(0, root)
     del sel_rt.LOG[:]
@@ -406,6 +411,7 @@ def run_case(acc, case):
         if len(A["healthy"]) >= 2 and any_chosen_period:
             acc.nontrivial.add(stable_hash(case))
     finally:
+        case.pop("_undisabled", None)
         e.gate = None
         try:
             sys.path.remove(root)
@@ -423,8 +429,11 @@ def run_case(acc, case):
         gc.collect()
 
 
-def check_period_log(acc, case, log, chosen, chosen_name, n_iter_expected, what, t_start=None, t_iters=None):
+def check_period_log(acc, case, log, chosen, chosen_name, n_iter_expected, what, t_start=None, t_iters=None, disabled=True):
     """The automaton of the statement over one period's callback log.  Returns True if fine."""
+    prev = case.get("_undisabled")
+    if prev is not None and log and log[0][0] == "on_disable" and log[0][1] == prev:
+        log = log[1:]          # whether start() disables a mode that never got disable() is not specified: tolerated
     acc.checks += 3
     acc.ev("other-modes-silent-checked")
     if chosen_name == "<dup>":
@@ -441,7 +450,7 @@ def check_period_log(acc, case, log, chosen, chosen_name, n_iter_expected, what,
     if chosen is None:
         return True
     kinds = [x[0] for x in log]
-    want = ["on_enable"] + ["on_iteration"] * n_iter_expected + ["on_disable"]
+    want = ["on_enable"] + ["on_iteration"] * n_iter_expected + (["on_disable"] if disabled else [])
     if kinds != want:
         acc.violation("C14/lifecycle", f"{what}: chosen mode received {kinds}, expected on_enable, {n_iter_expected} x on_iteration, on_disable", case, {})
         return False
@@ -504,8 +513,13 @@ def run_api_period(acc, case, selector, ops, chosen, chosen_name, e):
             acc.violation("C14/api-raised", f"{k}() raised {ex!r}", case, {})
             return "violation"
     acc.ev("period-api")
-    if not check_period_log(acc, case, list(sel_rt.LOG), chosen, chosen_name, n_iter, "start/periodic/disable period", t_start, t_iters):
+    was_disabled = ended
+    if not was_disabled:
+        acc.ev("period-without-disable")
+    if not check_period_log(acc, case, list(sel_rt.LOG), chosen, chosen_name, n_iter, "start/periodic/disable period", t_start, t_iters,
+                            disabled=was_disabled):
         return "violation"
+    case["_undisabled"] = None if was_disabled else getattr(selector.active_mode, "ident", None)
     return "ok"
 
 
